@@ -203,13 +203,15 @@ func (interp *Interpreter) pkgDir(goPath string, root, importPath string) (strin
 		return dir, rPath, nil // found!
 	}
 
-	dir = filepath.Join(goPath, "src", effectivePkg(root, importPath))
-
-	if _, err := fs.Stat(interp.opt.filesystem, dir); err == nil {
-		return dir, root, nil // found!
-	}
-
 	if root == "" {
+		// Only GOPATH/src is searched for the import path itself, not the
+		// directories of the importing package and of its ancestors.
+		dir = filepath.Join(goPath, "src", importPath)
+
+		if _, err := fs.Stat(interp.opt.filesystem, dir); err == nil {
+			return dir, root, nil // found!
+		}
+
 		if interp.context.GOPATH == "" {
 			return "", "", fmt.Errorf("unable to find source related to: %q. Either the GOPATH environment variable, or the Interpreter.Options.GoPath needs to be set", importPath)
 		}
